@@ -75,24 +75,46 @@ Theorem C17_poll_scripts : forall c g s p, dry c = true -> cancel_req p = false 
 Proof. exact dry_poll_gens. Qed.
 Print Assumptions C17_poll_scripts.
 
-(** C17_same_scripts, full statement (NOT proved):
-      for the real run r of the same graph in which every submission succeeds and every job
-      is reported FINISHED at the next poll, the sequence of first EGen events per node of r
-      equals the EGen sequence of the dry run (same throttle).
-    Proved part: in a complete dry run the EGen calls enumerate the instances without
-    repetition (each instance's scripts are generated exactly once); and in BOTH modes
-    _execute_record generates the script before anything else happens to the step
-    (C17_gen_first: the first new event of a non-restart execution is EGen x; in a dry run it
-    is the only one).  Missing: the lock-step simulation between the dry run and the ideal
-    real run (same staging order, same slot arithmetic) -- it is exercised by the
-    correspondence run (dry and real histories of the same graphs), not proved. *)
-Theorem C17_same_scripts_partial : forall c g ps, WF g -> dry c = true ->
+(** In a complete dry run the EGen calls enumerate the instances without repetition: each
+    instance's scripts are generated exactly once. *)
+Theorem C17_scripts_once : forall c g ps, WF g -> dry c = true ->
   Forall (fun p => cancel_req p = false) ps -> length g < length ps ->
   let G := flat_map (fun o : obs => gens (fst (fst o))) (run c g (init g) ps) in
   NoDup G /\ (forall x, In x G <-> x < length g) /\ length G = length g.
 Proof. exact dry_run_scripts. Qed.
-Print Assumptions C17_same_scripts_partial.
+Print Assumptions C17_scripts_once.
 
+(** C17_same_scripts.  The real run to compare with: the run of the same graph under the
+    IDEAL scheduler -- [ideal_pins cr g s n] are the poll inputs in which there is no cancel
+    request, the query answers OK with every tracked job FINISHED ([ipin]), and every
+    submission succeeds -- so every instance is generated exactly once there too (no restarts).
+    For the same throttle (any value), any attempts >= 1, and any dry-run poll inputs without
+    a cancel request: the sequence of script generations of the real run ([gens_all] = the
+    EGen arguments of the whole run, in order) equals that of the dry run.
+    (Proof: ExecDry.v Part 4, a lock-step simulation -- same queue, same dependency table,
+    same slot arithmetic in every poll; the real run needs one more poll to collect the last
+    FINISHED reports, in which nothing is generated.) *)
+Theorem C17_same_scripts : forall cr cd g, WF g -> dry cr = false -> dry cd = true ->
+  throttle cd = throttle cr -> 0 < attempts cr ->
+  forall ps, Forall (fun p => cancel_req p = false) ps ->
+  gens_all (run cr g (init g) (ideal_pins cr g (init g) (length ps))) = gens_all (run cd g (init g) ps).
+Proof. exact same_scripts. Qed.
+Print Assumptions C17_same_scripts.
+
+(** ... poll by poll: the simulation relation [Sim] (ExecDry.v) is kept and the two polls
+    generate the same scripts in the same order; the real run finishes only if the dry run does *)
+Theorem C17_same_scripts_poll : forall cr cd g, dry cr = false -> dry cd = true ->
+  throttle cd = throttle cr -> 0 < attempts cr ->
+  forall sr sd pd, Sim g sr sd -> cancel_req pd = false ->
+  Sim g (fst (poll cr g sr (ipin sr))) (fst (poll cd g sd pd)) /\
+  gens (rev (evs (fst (poll cr g sr (ipin sr))))) = gens (rev (evs (fst (poll cd g sd pd)))) /\
+  (snd (poll cr g sr (ipin sr)) = SRUNNING \/
+   (snd (poll cr g sr (ipin sr)) = SFINISHED /\ snd (poll cd g sd pd) = SFINISHED)).
+Proof. exact sim_poll. Qed.
+Print Assumptions C17_same_scripts_poll.
+
+(** in BOTH modes _execute_record generates the script before anything else happens to the
+    step: the first new event of a non-restart execution is EGen x; in a dry run it is the only one *)
 Theorem C17_gen_first : forall c g x s,
   exists new, evs (execute_record_gen c g x false s) = new ++ EGen x :: evs s /\
               (forall y, ~ In (EGen y) new) /\ (dry c = true -> new = []).
@@ -128,6 +150,14 @@ Example C17_ex_run_throttled :
   map (fun o : obs => (fst (fst o), snd o)) (run (c_dry 1) g3 (init g3) [pin_of QOK []; pin_of QOK []; pin_of QOK []; pin_of QOK []]) =
   [([EGen 0], SRUNNING); ([EGen 1], SRUNNING); ([EGen 2], SFINISHED)].
 Proof. vm_compute. reflexivity. Qed.
+
+(** the ideal real run of the same graph, throttle 1: same generation order as the dry run *)
+Example C17_ex_same_scripts :
+  let cr := {| throttle := 1; attempts := 1; dry := false |} in
+  gens_all (run cr g3 (init g3) (ideal_pins cr g3 (init g3) 5)) = [0; 1; 2] /\
+  gens_all (run (c_dry 1) g3 (init g3) [pin_of QOK []; pin_of QOK []; pin_of QOK []; pin_of QOK []; pin_of QOK []]) = [0; 1; 2] /\
+  length (run cr g3 (init g3) (ideal_pins cr g3 (init g3) 5)) = 4.
+Proof. vm_compute. repeat split. Qed.
 
 (** a cancel request in a dry run cancels nothing *)
 Example C17_ex_cancel :
